@@ -30,7 +30,7 @@ seed was re-run; the table keeps the first verdict and the verdict after the fol
 
 Totals at the time of writing: %d independently seeded changes; %d caught by the checks as they were when the seed arrived;
 %d caught after follow-up work (or by the thorough tier); the rest are listed with the reason. In addition the reverse patches
-of the seven repaired defects (`seeded/real_*`) are all caught.
+of the repaired defects (`seeded/real_*`, one per fix: commit) are all caught.
 
 | seed | property | origin | quick tier | thorough tier | caught by / gap |
 |---|---|---|---|---|---|
